@@ -65,7 +65,12 @@ def c03_1(c: Ctx) -> None:
     sets = signal_calls(c, 'set')
     owner = c.unit(MOD, f'BaseEvent.{MARK}')
     owners = c.cg.owners_closure({owner.key})
+    kept = getattr(c.prog, 'folded_kept', set())
     for u, call in sets:
+        if u.key in kept and u.key not in owners:
+            # a new public method whose library call sites were all folded into their callers: its write is judged at those sites (the copies are among `sets` too)
+            c.ok(where(u, call), f'{u.qualname} (new, folded into every library call site): judged where it is used')
+            continue
         if u.key not in owners:
             c.fail(u, f'sets the completion signal: {U(call)}', f'the completion signal is set outside {MARK} (in {u.qualname}), bypassing the all-handlers/all-children test', node=call)
     # who may ask for the evaluation: an event with no results yet counts as complete ("no handlers matched"), so the evaluation is only meaningful once the
@@ -86,9 +91,14 @@ def c03_1(c: Ctx) -> None:
     for n in own_nodes(owner.node):
         if isinstance(n, ast.Assign) and len(n.targets) == 1 and isinstance(n.targets[0], ast.Name) and isinstance(n.value, ast.Call) and U(n.value.func) in ('all', 'any'):
             pred_locals[n.targets[0].id] = n
+    # the predicate may also be tested where it is computed (`if not all(...): return`): the call's text is the atom then
+    inline_preds = [n for n in own_nodes(owner.node) if isinstance(n, ast.Call) and isinstance(n.func, ast.Name) and n.func.id in ('all', 'any') and not any(a.value is n for a in pred_locals.values())]
+    for n in inline_preds:
+        pred_locals.setdefault(U(n), n)
+    pred_locals = {k: v for i, (k, v) in enumerate(pred_locals.items()) if k not in list(pred_locals)[:i]}
     atoms = {f'{self_}.event_results', children_atom} | set(pred_locals)
     facts = Facts(lambda a: a in atoms, cg=c.cg, unit=owner, ignore_writes={'event_processed_at'}, rhs_value=lambda v: None)
-    guard = f'(not {self_}.event_results) or (({" and ".join(sorted(pred_locals)) or "False"}) and {children_atom})'
+    guard = f'(not {self_}.event_results) or (({" and ".join(f"({x})" for x in sorted(pred_locals)) or "False"}) and {children_atom})'
     for call in own_sets:
         st = q.stmt_of(call)
         for n in g.nodes_of(st):
@@ -101,7 +111,7 @@ def c03_1(c: Ctx) -> None:
     if len(pred_locals) != 1:
         c.fail(owner, f'{len(pred_locals)} all()/any() predicates over the results', 'the "all handlers done" predicate is missing or duplicated')
     for name, asg in pred_locals.items():
-        ok, why = all_terminal_shape(asg.value)
+        ok, why = all_terminal_shape(asg.value if isinstance(asg, ast.Assign) else asg)
         if ok:
             c.ok(where(owner, asg), f"`{name}` = all(status in ('completed','error')) over every result")
         else:
